@@ -27,7 +27,7 @@ NAMES = ["a", "a.b", "a.b.c", ".a", ".a.b", "a..b", "a.", "a b.c", "ü.x",
 PREFIXES = ["", "/r"]          # directly below the root, and below one more directory
 
 
-HSCRIPT = ("mkdir -p \"$(dirname \"$3\")\"\n"
+HSCRIPT = ("mkdir -p -- \"$(dirname -- \"$3\")\"\n"
            "printf '%s|%s|%s\\n' {id} \"$1\" \"$2\" > \"$3\"\n")
 
 
@@ -123,7 +123,8 @@ def extra_checks(tier, verdict, cov):
     bindir = str(common.build_subject())
     root = str(common.scratch_root() / "c13h")
     os.makedirs(root, exist_ok=True)
-    targets = ["d/a.b", "d/e/a.b.c"] if tier == "quick" else ["a.b", "d/a.b", "d/e/a.b.c", "d.e/.a.b"]
+    # (d/-n.b: a file name that starts with a dash -- its own rule file is called -n.b.do)
+    targets = ["d/a.b", "d/e/a.b.c", "d/-n.b"] if tier == "quick" else ["a.b", "d/a.b", "d/e/a.b.c", "d.e/.a.b", "d/-n.b"]
     jobs = []
     idx = 0
     for t in targets:
